@@ -107,6 +107,7 @@ inductive Err where
   | panic      -- `panic!` / failed `assert!`
   | shapeMismatch  -- `ExpandError::ShapeMismatch`
   | noCapacity     -- `ExpandError::InsufficientCapacity`
+  | sliceError     -- any `SliceError`
   deriving DecidableEq, Repr
 
 deriving instance DecidableEq for Except
@@ -118,6 +119,7 @@ def Err.toString : Err → String
   | .panic => "panic"
   | .shapeMismatch => "err:shape"
   | .noCapacity => "err:cap"
+  | .sliceError => "err"
 
 /-- `FromShape::from_shape` (panics for too large shapes). -/
 def fromShape (shape : List Nat) : Except Err (List (Nat × Nat)) :=
@@ -229,6 +231,87 @@ def broadcast (dims : List (Nat × Nat)) (target : List Nat) : Option (List (Nat
         (dims.zip tail).map (fun p => (p.2, if p.1.1 == 1 && decide (p.2 > 1) then 0 else p.1.2)))
     else none
   else none
+
+/-! ### `slice` / `try_slice` / `slice_mut` with indices and step-1 ranges
+
+`SliceRange::resolve` (positive step) followed by `slice_layout`'s `step == 1` fast path
+(`new_size = resolved.end - resolved.start`), `slice_dyn` / `NdLayout::slice`
+(`offset..offset + min_data_len`) and `Storage::slice(_mut)`.  Ranges with other steps go
+through `index_range().steps()` and are C09's subject (`c09_slice`). -/
+
+/-- A slice item as the caller writes it (`isize` values; `stop = none` is an open end). -/
+inductive SItem where
+  | index (i : Int)
+  | range (start : Int) (stop : Option Int)
+  deriving DecidableEq, Repr
+
+/-- `SliceRange::offset_from_start`. -/
+def offsetFromStart (i : Int) (n : Nat) : Int := if i ≥ 0 then i else (n : Int) + i
+
+/-- `SliceRange::resolve` for a positive step.  `canon = true` is the code as it is
+(`let end = end.max(start)`); `canon = false` is the variant without that line. -/
+def resolve1 (canon : Bool) (start : Int) (stop : Option Int) (n : Nat) : Option (Nat × Nat) :=
+  let s := offsetFromStart start n
+  let e := match stop with
+    | some x => offsetFromStart x n
+    | none => (n : Int)
+  if 0 ≤ s ∧ s ≤ (n : Int) ∧ 0 ≤ e ∧ e ≤ (n : Int) then
+    some (s.toNat, if canon then (max e s).toNat else e.toNat)
+  else none
+
+/-- What `slice_layout` does with one dimension once the item is resolved. -/
+inductive RItem where
+  | pick (pos : Nat)      -- `SliceItem::Index`: dimension dropped, offset += stride * pos
+  | span (s e : Nat)      -- resolved range `s..e` with step 1
+  | keep                  -- no item for this dimension
+  deriving DecidableEq, Repr
+
+/-- Resolve one item against a dimension of `size` entries; `none` = `SliceError`. -/
+def resolveItem (canon : Bool) (size : Nat) : SItem → Option RItem
+  | .index i =>
+    let pos := if i ≥ 0 then i else i + (size : Int)
+    if pos < 0 ∨ pos ≥ (size : Int) then none else some (.pick pos.toNat)
+  | .range start stop =>
+    match resolve1 canon start stop size with
+    | none => none
+    | some (s, e) => some (.span s e)
+
+def resolveItems (canon : Bool) : List (Nat × Nat) → List SItem → Option (List RItem)
+  | _, [] => some []
+  | [], _ :: _ => none        -- `TooManyDims`
+  | (size, _) :: ds, it :: its =>
+    match resolveItem canon size it, resolveItems canon ds its with
+    | some r, some rs => some (r :: rs)
+    | _, _ => none
+
+/-- The `slice_layout` loop on resolved items: `(offset, output dims)`. -/
+def sliceLoopR : List (Nat × Nat) → List RItem → Nat × List (Nat × Nat)
+  | [], _ => (0, [])
+  | ds, [] => (0, ds)
+  | (size, stride) :: ds, it :: its =>
+    let r := sliceLoopR ds its
+    match it with
+    | .pick p => (stride * p + r.1, r.2)
+    | .span s e => (stride * s + r.1, (e - s, stride) :: r.2)
+    | .keep => (r.1, (size, stride) :: r.2)
+
+/-- `slice_dyn` + `Storage::slice`: offset reset for empty results, range
+`offset..offset + min_data_len`, `assert_storage_range_valid`; `none` = panic. -/
+def trySliceR (dims : List (Nat × Nat)) (n : Nat) (items : List RItem) : Option View :=
+  let r := sliceLoopR dims items
+  let off := if hasZero r.2 then 0 else r.1
+  if rangeValid ⟨off, off + minDataLen r.2, r.2⟩ n then some ⟨off, off + minDataLen r.2, r.2⟩
+  else none
+
+/-- `try_slice` / `try_slice_mut` with indices and step-1 ranges. -/
+def trySlice (canon : Bool) (dims : List (Nat × Nat)) (n : Nat) (items : List SItem) :
+    Except Err View :=
+  match resolveItems canon dims items with
+  | none => .error .sliceError
+  | some rs =>
+    match trySliceR dims n rs with
+    | none => .error .panic
+    | some v => .ok v
 
 /-- `Layout::is_broadcast`: non-empty and some stride is zero (the mutable iterators
 `LanesMut`, `AxisIterMut`, `AxisChunksMut` assert its negation). -/
@@ -457,6 +540,44 @@ def expandedLayout (dims : List (U × U)) (capacity : U) (axis : Nat) (newSize :
     if m ≤ capacity ∧ mayOverlap (setSize dims axis newSize) = false then
       some (setSize dims axis newSize)
     else none
+
+/-! ### `slice_layout` fast path on machine integers -/
+
+inductive RItem where
+  | pick (pos : U)
+  | span (s e : U)
+  | keep
+  deriving DecidableEq, Repr
+
+def RItem.toN : RItem → TensorBounds.RItem
+  | .pick p => .pick p.toNat
+  | .span s e => .span s.toNat e.toNat
+  | .keep => .keep
+
+/-- A machine view: storage range `start..stop` as computed (possibly reversed) and dims.
+`Range::len()` of a reversed range is 0. -/
+structure View where
+  start : U
+  stop : U
+  dims : List (U × U)
+  deriving DecidableEq, Repr
+
+def View.storageLen (v : View) : U := if v.start ≤ v.stop then v.stop - v.start else 0
+
+def sliceLoopR : List (U × U) → List RItem → U × List (U × U)
+  | [], _ => (0, [])
+  | ds, [] => (0, ds)
+  | (size, stride) :: ds, it :: its =>
+    let r := sliceLoopR ds its
+    match it with
+    | .pick p => (stride * p + r.1, r.2)
+    | .span s e => (stride * s + r.1, (e - s, stride * 1) :: r.2)
+    | .keep => (r.1, (size, stride) :: r.2)
+
+def trySliceR (dims : List (U × U)) (n : U) (items : List RItem) : Option View :=
+  let r := sliceLoopR dims items
+  let off := if hasZero r.2 then 0 else r.1
+  if off ≤ n ∧ off + minDataLen r.2 ≤ n then some ⟨off, off + minDataLen r.2, r.2⟩ else none
 
 /-! ### Constructors of the code before the fix (no overflow guards) -/
 namespace Old
